@@ -5,7 +5,6 @@ import (
 	"bytes"
 	"fmt"
 	"math"
-	"os"
 	"reflect"
 	"sort"
 	"strconv"
@@ -147,7 +146,7 @@ func (g *c10Gen) value() *sx {
 	case 8:
 		return call("ints", a(strconv.FormatInt(Pick(g.rng, c10Ints), 10)), a("2"))
 	case 9:
-		g.stats.Inc("gen.literal_as_parameter_value")
+		g.stats.Inc("literal_as_parameter_value")
 		return call("lit", g.litSpec()) // query.Equals(ref, query.Literal(v)): an AST node as the parameter VALUE
 	default:
 		return call("i", a(strconv.Itoa(g.rng.Intn(100))))
@@ -165,7 +164,7 @@ func (g *c10Gen) litSpec() *sx {
 	case 3:
 		return call("u64", a(strconv.FormatUint(uint64(g.rng.Intn(1000)), 10)))
 	case 4, 5:
-		g.stats.Inc("gen.float_literal")
+		g.stats.Inc("float_literal")
 		return call("f", sxStr(fstr(Pick(g.rng, c10Floats))))
 	case 6:
 		return call("f32", sxStr(fstr(float64(float32(Pick(g.rng, []float64{0.5, 2, -3.25, 16777216}))))))
@@ -174,7 +173,7 @@ func (g *c10Gen) litSpec() *sx {
 	case 8:
 		return call("nil")
 	default:
-		g.stats.Inc("gen.string_literal")
+		g.stats.Inc("string_literal")
 		return call("s", sxStr(Pick(g.rng, c10Strings)))
 	}
 }
@@ -192,7 +191,7 @@ func (g *c10Gen) operand(depth int) *sx {
 			for i := 0; i < n; i++ {
 				items = append(items, g.operand(depth-1))
 			}
-			g.stats.Inc("gen.list_literal")
+			g.stats.Inc("list_literal")
 			return l(items...)
 		}
 		fallthrough
@@ -215,7 +214,7 @@ func (g *c10Gen) leaf() *sx {
 	if g.safe {
 		switch g.rng.Intn(5) {
 		case 0:
-			g.stats.Inc("gen.pattern_predicate")
+			g.stats.Inc("pattern_predicate")
 			return call("HasRelationships", call(Pick(g.rng, g.nodeVarRefs())))
 		case 1:
 			return call("Cmp", a("Equals"), g.ref(), call("s", sxStr(Pick(g.rng, c10Strings))))
@@ -236,7 +235,7 @@ func (g *c10Gen) leaf() *sx {
 	case 3:
 		return call(Pick(g.rng, []string{"IsNull", "IsNotNull", "Exists"}), g.propRef())
 	case 4, 5:
-		g.stats.Inc("gen.kind_any_of")
+		g.stats.Inc("kind_any_of")
 		return call(Pick(g.rng, []string{"Kind", "KindIn"}), append([]*sx{call(Pick(g.rng, g.varRefs()))}, g.kinds(1)...)...)
 	case 6:
 		return call("In", g.ref(), g.value())
@@ -254,16 +253,18 @@ func (g *c10Gen) leaf() *sx {
 	case 9:
 		return call("LessThanGraphQuery", g.propRef(), g.propRef())
 	case 10:
-		g.stats.Inc("gen.kind_all_of")
+		g.stats.Inc("kind_all_of")
 		return l(append([]*sx{a("RawKinds"), call(Pick(g.rng, g.nodeVarRefs())), a(strconv.Itoa(g.rng.Intn(2)))}, g.kinds(1)...)...)
 	case 11:
 		return call("IsNotNull", g.propRef())
 	case 12:
 		return call("In", call("KindsOf", call(Pick(g.rng, g.varRefs()))), call("strs", sxStr("A"), sxStr("B")))
-	default:
-		g.stats.Inc("gen.raw_comparison")
+	case 13, 14, 15, 16, 17:
+		g.stats.Inc("raw_comparison")
 		op := Pick(g.rng, []string{"=", "<>", "<", "<=", ">", ">=", "starts with", "ends with", "contains", "in"})
 		return call("RawCmp", sxStr(op), g.operand(2), g.operand(2))
+	default:
+		return call("Cmp", a(Pick(g.rng, []string{"Equals", "GreaterThan", "GreaterThanOrEquals", "LessThan", "LessThanOrEquals"})), g.ref(), g.value())
 	}
 }
 
@@ -298,15 +299,15 @@ func (g *c10Gen) criteria(depth int) *sx {
 	case 5, 6, 7, 8:
 		return l(append([]*sx{a("Or")}, kids()...)...)
 	case 9, 10, 11:
-		g.stats.Inc("gen.xor")
+		g.stats.Inc("xor")
 		return l(append([]*sx{a("Xor")}, kids()...)...)
 	case 12, 13, 14, 15:
 		return call("Not", g.criteria(depth-1))
 	case 16:
-		g.stats.Inc("gen.raw_negation")
+		g.stats.Inc("raw_negation")
 		return call("RawNot", g.criteria(depth-1))
 	case 17:
-		g.stats.Inc("gen.raw_disjunction")
+		g.stats.Inc("raw_disjunction")
 		return l(append([]*sx{a("RawOr")}, kids()...)...)
 	case 18:
 		return call("RawParen", g.criteria(depth-1))
@@ -374,15 +375,15 @@ func (g *c10Gen) returning() []*sx {
 			}
 		}
 		out = append(out, l(ob...))
-		g.stats.Inc("gen.order_by")
+		g.stats.Inc("order_by")
 	}
 	if g.rng.Intn(3) == 0 {
 		out = append(out, call("Limit", a(strconv.Itoa(g.rng.Intn(2000)-3))))
-		g.stats.Inc("gen.limit")
+		g.stats.Inc("limit")
 	}
 	if g.rng.Intn(4) == 0 {
 		out = append(out, call("Offset", a(strconv.Itoa(g.rng.Intn(50)))))
-		g.stats.Inc("gen.offset")
+		g.stats.Inc("offset")
 	}
 	return out
 }
@@ -410,7 +411,7 @@ func (g *c10Gen) updates() []*sx {
 			ups = append(ups, l(append([]*sx{a("DeleteKinds"), v}, g.kinds(1)...)...))
 		}
 	}
-	g.stats.Inc("gen.update")
+	g.stats.Inc("update")
 	return []*sx{l(append([]*sx{a("Update")}, ups...)...)}
 }
 
@@ -443,7 +444,7 @@ func (g *c10Gen) query(depth int) *sx {
 		parts = append(parts, g.updates()...)
 	case 1:
 		parts = append(parts, call("Delete", call(Pick(g.rng, g.varRefs()))))
-		g.stats.Inc("gen.delete")
+		g.stats.Inc("delete")
 	case 2:
 		parts = append(parts, g.updates()...)
 		parts = append(parts, g.returning()...)
@@ -464,7 +465,7 @@ func (c10Suite) Gen(rng *Rng, tier string, w *bufio.Writer, stats *Stats) {
 	ret := call("Returning", call("Node"))
 	for _, c := range c10Pairs() {
 		emit("pair", call("Q", call("Where", c), ret))
-		stats.Inc("gen.pairs")
+		stats.Inc("pairs")
 	}
 	// every literal type as a bare comparison operand
 	for _, s := range c10Strings {
@@ -480,7 +481,7 @@ func (c10Suite) Gen(rng *Rng, tier string, w *bufio.Writer, stats *Stats) {
 	emit("create", call("Q", call("Create", call("NodePattern", sxStr("A"), sxStr("B"))), ret))
 	emit("create-rel", call("Q", call("Where", call("And", call("Cmp", a("Equals"), call("StartID"), call("i", a("1"))), call("Cmp", a("Equals"), call("EndID"), call("i", a("2"))))),
 		call("Create", call("Start"), call("RelationshipPattern", sxStr("EdgeKind1")), call("End")), call("Returning", call("RelID"))))
-	stats.Add("gen.create", 2)
+	stats.Add("create", 2)
 	count := 1500
 	if tier == "thorough" {
 		count = 30000
@@ -1102,12 +1103,12 @@ func (c10rwSuite) Gen(rng *Rng, tier string, w *bufio.Writer, stats *Stats) {
 	for _, q := range extra {
 		n++
 		fmt.Fprintf(w, "# case %d extra\nq %s\n", n, jsonQuote(q))
-		stats.Inc("gen.extra")
+		stats.Inc("extra")
 	}
 	for _, c := range LoadCypherCorpus() {
 		n++
 		fmt.Fprintf(w, "# case %d corpus:%s\nq %s\n", n, c.Source, jsonQuote(c.Query))
-		stats.Inc("gen.corpus")
+		stats.Inc("corpus")
 	}
 }
 
@@ -1205,5 +1206,3 @@ func (r *c10rwRunner) Step(t []string, raw string) string {
 	}
 	return "ok\tshapes " + sh
 }
-
-var _ = os.Getenv
